@@ -206,3 +206,10 @@ fn('translate_scale.rs', 'impl Mul<Line> for TranslateScale', 'mul', 'TranslateS
 fn('translate_scale.rs', 'impl Mul<Rect> for TranslateScale', 'mul', 'TranslateScale.mul_Rect', f'(self : {TS}) (other : {R}) : {R}')
 fn('translate_scale.rs', 'impl Mul<QuadBez> for TranslateScale', 'mul', 'TranslateScale.mul_QuadBez', f'(self : {TS}) (other : {Q}) : {Q}')
 fn('translate_scale.rs', 'impl Mul<CubicBez> for TranslateScale', 'mul', 'TranslateScale.mul_CubicBez', f'(self : {TS}) (other : {C}) : {C}')
+
+# ---------------------------------------------------------------- cubic -> quadratic conversion kernel (C17)
+fn('vec2.rs', 'impl Vec2 {', 'div_exact', 'Vec2.div_exact', f'(self : {V}) (divisor : K) : {V}')
+fn('cubicbez.rs', 'impl CubicBez {', 'approx_quad_control', 'CubicBez.approx_quad_control', f'(self : {C}) (t : K) : {P}')
+fn('cubicbez.rs', 'impl CubicBez {', 'parameters', 'CubicBez.parameters', f'(self : {C}) : {V} × {V} × {V} × {V}')
+fn('cubicbez.rs', 'impl CubicBez {', 'from_parameters', 'CubicBez.from_parameters', f'(a b c d : {V}) : {C}')
+fn('cubicbez.rs', 'impl CubicBez {', 'subdivide_3', 'CubicBez.subdivide_3', f'(self : {C}) : {C} × {C} × {C}')
